@@ -1,24 +1,70 @@
-/* C18 core / pcryptohash: for each hash type of the list -DTYPES (script variant = index; all 11 over the queries): new (object + context)
- * -> update with 3 concrete bytes -> get_string (allocates the hex text; closes the context) ->
- * get_digest -> free, under the failing allocator.  Documented: new returns NULL, get_string NULL. */
-#define C18_STOPS_AT_FIRST_FAILURE   /* a failed constructor ends the script: at most one request fails */
+/* C18 core / pcryptohash: for each hash type of the list -DTYPES (script variant = index; all 11 over the queries):
+ *   new (object + context) -> update "abc" -> get_string (allocates the hex text; closes the context) -> [retry get_string when it
+ *   failed] -> update "de" (documented: ignored, the context is closed) -> get_digest -> reset -> update "f" -> get_digest -> free
+ * under the failing allocator, compared with a REFERENCE RUN of the same calls without failure that is executed once before the
+ * failure point is chosen (c18_prologue): after a get_string that failed for lack of memory the pre-existing hash object must
+ * still deliver exactly the text and the digests of the un-failed run ("objects that existed before the call remain valid and
+ * unchanged" - here: changed only in the documented way, closed and finished).
+ * Documented: new returns NULL, get_string NULL. */
+#define C18_PROLOGUE
 #include "C18_core.h"
 #include <pcryptohash.h>
-/* Only the units of the listed types are linked (the other constructors referenced by pcryptohash.c stay
- * body-less and unreachable).  The static compression functions are replaced by no-ops (their arithmetic is the subject of C11) */
+/* Only the units of the listed types are linked (the other constructors referenced by pcryptohash.c stay body-less and
+ * unreachable).  The static compression functions (their arithmetic is C11's subject) are replaced by a cheap mixing step that
+ * makes every call VISIBLE in the digest: state[0] ^= 0xA5, state[1] = 3*state[1] + first data byte, on the state the unit's own
+ * *_digest() accessor points to.  A digest taken from an unfinished context therefore differs from the finished one. */
 #define STUB(file, name, ctype, dtype) struct ctype; \
-  void __CPROVER_file_local_pcryptohash_##file##_c_pp_crypto_hash_##name##_process(struct ctype *ctx, const dtype *data) { (void) ctx; (void) data; }
+  extern const puchar *p_crypto_hash_##name##_digest(struct ctype *ctx); \
+  void __CPROVER_file_local_pcryptohash_##file##_c_pp_crypto_hash_##name##_process(struct ctype *ctx, const dtype *data) { \
+    puchar *st = (puchar *) p_crypto_hash_##name##_digest(ctx); \
+    st[0] ^= 0xA5; st[1] = (puchar) (3 * st[1] + ((const puchar *) data)[0]); }
+#ifdef WITH_SHA3
+STUB(sha3, sha3, PHashSHA3_, puint64)
+#else
 STUB(md5, md5, PHashMD5_, puint32) STUB(sha1, sha1, PHashSHA1_, puint32) STUB(sha2_256, sha2_256, PHashSHA2_256_, puint32)
-STUB(sha2_512, sha2_512, PHashSHA2_512_, puint64) STUB(sha3, sha3, PHashSHA3_, puint64) STUB(gost3411, gost3411, PHashGOST3411_, puint32)
+STUB(sha2_512, sha2_512, PHashSHA2_512_, puint64) STUB(gost3411, gost3411, PHashGOST3411_, puint32)
+#endif
 #ifndef TYPES
-#define TYPES 0, 1, 2, 3, 4, 5, 6, 7, 8, 9, 10
+#define TYPES 0, 1, 2, 3, 4, 5, 10
 #endif
 static const int types[] = {TYPES};          /* script variant c18_choice -> hash type */
 static const unsigned hlen[11] = {16, 20, 28, 32, 48, 64, 28, 32, 48, 64, 32};
+#define HEXMAX 129
+static char   ref_str[NCHOICE][HEXMAX];      /* un-failed run: hex text, digest after the ignored update, digest after reset + update */
+static puchar ref_d1[NCHOICE][64], ref_d2[NCHOICE][64];
+static int    ref_ok[NCHOICE];
+
+static void c18_prologue(void) {
+  for (int c = 0; c < NCHOICE; c++) {
+    unsigned n = hlen[types[c]];
+    PCryptoHash *h = p_crypto_hash_new((PCryptoHashType) types[c]);
+    if (h == NULL) continue;
+    p_crypto_hash_update(h, (const puchar *) "abc", 3);
+    pchar *s = p_crypto_hash_get_string(h);
+    if (s != NULL) { for (unsigned i = 0; i < 2 * n + 1 && i < HEXMAX; i++) ref_str[c][i] = s[i]; ref_ok[c] = 1; }
+    p_free(s);
+    p_crypto_hash_update(h, (const puchar *) "de", 2);
+    psize len = 64; p_crypto_hash_get_digest(h, ref_d1[c], &len);
+    p_crypto_hash_reset(h);
+    p_crypto_hash_update(h, (const puchar *) "f", 1);
+    len = 64; p_crypto_hash_get_digest(h, ref_d2[c], &len);
+    p_crypto_hash_free(h);
+  }
+}
+
+static void same_digest(const puchar *got, const puchar *ref, unsigned n, psize len) {
+  VASSERT(len == n, "digest delivered");
+  int same = 1;
+  for (unsigned i = 0; i < 64; i++) if (i < n && got[i] != ref[i]) same = 0;
+  VASSERT(same, "digest = digest of the run without allocation failure");
+}
 
 static void script(void) {
   c18_begin();
-  PCryptoHashType type = (PCryptoHashType) types[c18_choice];
+  int c = c18_choice;
+  unsigned n = hlen[types[c]];
+  PCryptoHashType type = (PCryptoHashType) types[c];
+  VASSERT(ref_ok[c], "reference run completed");
   int f0 = vm_failed;
   PCryptoHash *h = p_crypto_hash_new(type);
   if (C18_FAILED_SINCE(f0)) {
@@ -26,33 +72,43 @@ static void script(void) {
     VASSERT(vm_live == c18_base, "failed p_crypto_hash_new leaves nothing allocated");
     VASSERT(p_crypto_hash_get_string(NULL) == NULL, "NULL hash: NULL string");
     p_crypto_hash_free(NULL);
-    c18_end(0);
-    return;
+    /* retry of the constructor */
+    f0 = vm_failed;
+    h = p_crypto_hash_new(type);
+    if (C18_FAILED_SINCE(f0)) { VASSERT(h == NULL && vm_live == c18_base, "retried constructor fails cleanly again"); c18_end2(0, KMAX + 1); return; }
+    VASSERT(h != NULL, "retried p_crypto_hash_new succeeds when no allocation fails");
   }
   VASSERT(h != NULL, "p_crypto_hash_new succeeds when no allocation fails");
-  VASSERT(p_crypto_hash_get_length(h) == (pssize) hlen[types[c18_choice]] && p_crypto_hash_get_type(h) == type, "type and length");
+  VASSERT(p_crypto_hash_get_length(h) == (pssize) n && p_crypto_hash_get_type(h) == type, "type and length");
   p_crypto_hash_update(h, (const puchar *) "abc", 3);
-  f0 = vm_failed;
-  int live0 = vm_live;
-  pchar *s = p_crypto_hash_get_string(h);
-  if (C18_FAILED_SINCE(f0)) { VASSERT(s == NULL, "p_crypto_hash_get_string returns NULL when the text cannot be allocated"); VASSERT(vm_live == live0, "nothing allocated"); }
-  else {
-    VASSERT(s != NULL, "p_crypto_hash_get_string succeeds when no allocation fails");
-    if (s != NULL) {
-      VASSERT(s[2 * hlen[types[c18_choice]]] == 0, "hex text terminated at 2*length");
-      char c0 = s[0];
-      VASSERT((c0 >= '0' && c0 <= '9') || (c0 >= 'a' && c0 <= 'f'), "hex text");
+  pchar *s = NULL;
+  int tries = 0;
+  for (int attempt = 0; attempt < 2 && s == NULL; attempt++, tries++) {      /* a failed read is retried once */
+    f0 = vm_failed;
+    int live0 = vm_live;
+    s = p_crypto_hash_get_string(h);
+    if (C18_FAILED_SINCE(f0)) { VASSERT(s == NULL, "p_crypto_hash_get_string returns NULL when the text cannot be allocated"); VASSERT(vm_live == live0, "nothing allocated"); }
+    else {
+      VASSERT(s != NULL, "p_crypto_hash_get_string succeeds when no allocation fails");
+      int same = s != NULL;
+      if (s != NULL) for (unsigned i = 0; i < HEXMAX; i++) if (i < 2 * n + 1 && s[i] != ref_str[c][i]) same = 0;
+      VASSERT(same, "hex text = text of the run without allocation failure (also when an earlier attempt failed)");
     }
   }
-  /* the context is still usable: digest can be fetched (allocates nothing) */
+  p_free(s);
+  /* the object is still the one the un-failed run has at this point: closed (update ignored), finished, same digest */
+  p_crypto_hash_update(h, (const puchar *) "de", 2);
   puchar buf[64]; psize len = sizeof buf;
   p_crypto_hash_get_digest(h, buf, &len);
-  VASSERT(len == hlen[types[c18_choice]], "digest delivered after a failed get_string");
-  if (s != NULL) {
-    static const char hex[] = "0123456789abcdef";
-    VASSERT(s[0] == hex[buf[0] >> 4] && s[1] == hex[buf[0] & 15], "text = hex of the digest");
-  }
-  p_free(s);
+  same_digest(buf, ref_d1[c], n, len);
+  p_crypto_hash_reset(h);
+  p_crypto_hash_update(h, (const puchar *) "f", 1);
+  len = sizeof buf;
+  p_crypto_hash_get_digest(h, buf, &len);
+  same_digest(buf, ref_d2[c], n, len);
   p_crypto_hash_free(h);
-  c18_end(3);
+  c18_end2(3, 3);
+#ifndef NOFAIL
+  if (tries == 2 && s != NULL) VWITNESS("get_string failed once and succeeded when retried");
+#endif
 }
